@@ -8,6 +8,13 @@ def v4str(v): return ".".join(str((v >> s) & 255) for s in (24, 16, 8, 0))
 def v6str(v): return ":".join("%x" % ((v >> s) & 0xffff) for s in range(112, -1, -16))
 
 def gen_net(rng):
+    if rng.random() < 0.12:
+        # a single HOST whose address looks like a network address (all low bits zero): "10.0.0.0", "2001:db8::", "fd00::", "::"
+        if rng.random() < 0.4:
+            k = rng.choice([0, 8, 16, 24])
+            return ("4", (rng.getrandbits(k) << (32 - k)) if k else 0, 32)
+        k = rng.choice([0, 8, 16, 32, 32, 48, 64])
+        return ("6", (rng.getrandbits(k) << (128 - k)) if k else 0, 128)
     if rng.random() < 0.6:
         plen = rng.choice([0, 1, 7, 8, 9, 16, 23, 24, 25, 30, 31, 32, rng.randint(0, 32)])
         base = rng.getrandbits(32) >> (32 - plen) << (32 - plen) if plen else 0
@@ -20,7 +27,7 @@ def net_text(rng, n):
     f, base, plen = n
     a = v4str(base) if f == "4" else v6str(base)
     bits = 32 if f == "4" else 128
-    if plen == bits and rng.random() < 0.6:
+    if plen == bits and (rng.random() < 0.6 or base & 0xff == 0):
         return a                       # single host without suffix (exercises the /32, /128 fall-backs)
     return "%s/%d" % (a, plen)
 
